@@ -211,6 +211,9 @@ class Path:
         if isinstance(t, tuple) and t[0] == "compare" and len(t[1]) == 1 and t[1][0] in ("is not", "!=", "not in"):
             flip = {"is not": "is", "!=": "==", "not in": "in"}
             t, neg = ("compare", (flip[t[1][0]],), t[2]), not neg
+        # any([a, b, ...]) / all((a, b, ...)) over a display: the disjunction / conjunction of the elements
+        if isinstance(t, tuple) and t[0] == "call" and t[1] in (("builtin", "any"), ("builtin", "all")) and len(t[2]) == 1 and not t[3] and t[2][0][0] in ("list", "tuple") and t[2][0][1] and not any(x[0] == "star" for x in t[2][0][1]):
+            t = ("boolop", "or" if t[1][1] == "any" else "and", tuple(t[2][0][1]))
         # a regex match object is always truthy: `if m:` is `if m is not None:`
         if isinstance(t, tuple) and t[0] == "call" and t[1][0] == "attr" and t[1][2] in ("search", "match", "fullmatch"):
             t, neg = ("compare", ("is",), (t, ("const", None))), not neg
@@ -294,6 +297,10 @@ class Path:
     def _atoms_consistent(asg):
         eq = {}
         for a, v in asg.items():
+            if not v and a[0] == "call" and a[1][0] == "attr" and a[1][2] in ("split", "rsplit") and len(a[2]) >= 1 and a[2][0][0] == "const" and a[2][0][1]:
+                return False  # s.split(sep) has at least one element
+            if a[0] == "const" and bool(a[1]) != v:
+                return False
             if a[0] != "compare" or len(a[1]) != 1:
                 continue
             op = a[1][0]
@@ -303,6 +310,12 @@ class Path:
                     if (x[1] == k[1]) != v:
                         return False
                     continue
+                if op == "is":
+                    st = _sentinel_truth(x, k)
+                    if st is None:
+                        st = _sentinel_truth(k, x)
+                    if st is not None and st != v:
+                        return False
                 if op == "is" and k == ("const", None) and v and (_never_none_call(x) or x[0] in ("list", "tuple", "dict", "set", "binop", "fstr", "comp", "lambda")):
                     return False
                 if v:
@@ -323,6 +336,25 @@ class Path:
 
     def describe(self):
         return " & ".join(("" if pol else "not ") + "(" + show(t) + ")" for t, pol, _ in self.conds) or "true"
+
+
+_SENTINELS = frozenset()  # (module, name) of identity markers of the program under analysis (set by Analysis)
+
+
+def _sentinel_truth(x, k):
+    """Truth of `x is k` for an identity marker k (module-level object() that never escapes): True for k itself,
+    False for anything computed or read from a container, None when x may be a marker handed in from elsewhere."""
+    if k[0] != "global" or (k[1], k[2]) not in _SENTINELS:
+        return None
+    if x == k:
+        return True
+    if x[0] in ("sub", "fstr", "binop", "const", "list", "tuple", "dict", "set", "comp", "lambda", "slice"):
+        return False
+    if x[0] == "global" and (x[1], x[2]) in _SENTINELS:
+        return False
+    if x[0] == "call" and (x[1][0] in ("builtin", "attr") or _never_none_call(x)):
+        return False
+    return None
 
 
 _NEVER_NONE_BUILTINS = {"list", "set", "dict", "tuple", "sorted", "str", "int", "len", "frozenset", "bool", "float", "repr", "range", "enumerate", "zip", "reversed", "bytes"}
@@ -812,7 +844,129 @@ class Evaluator:
             return None
         return m, list(exprs[0].elts)
 
+    def _fuse_generator_loop(self, st, p):
+        """`for T in gen(args): BODY` with gen a generator function of this module  ==  gen's body with every
+        `yield e` replaced by `T = e; BODY` (what the interpreter does, interleaving included).  Returns the
+        statement list, or None when the shape is not covered (then the eager list twin of gen is used)."""
+        import copy
+        if st.orelse or not isinstance(st.iter, ast.Call) or any(isinstance(a, ast.Starred) for a in st.iter.args) or any(k.arg is None for k in st.iter.keywords):
+            return None
+        try:
+            f = self.expr(st.iter.func, Path(dict(p.env)))
+        except AnalysisError:
+            return None
+        r = self.resolve_package_callee(f, p)
+        if r is None:
+            return None
+        callee, skip = r
+        if callee.gen_orig is None or callee.module is not self.module or callee is self.fn or callee.qualname in self.inline_stack or callee.vararg or callee.kwarg:
+            return None
+        if getattr(self, "_fusing", ()) and callee.qualname in self._fusing:
+            return None
+
+        def own_level(stmts):
+            todo = list(stmts)
+            while todo:
+                n = todo.pop()
+                yield n
+                for c in ast.iter_child_nodes(n):
+                    if not isinstance(c, (ast.For, ast.While, ast.AsyncFor, ast.FunctionDef, ast.AsyncFunctionDef, ast.Lambda, ast.ClassDef)):
+                        todo.append(c)
+                    elif isinstance(c, (ast.For, ast.While, ast.AsyncFor)):
+                        todo.extend(c.orelse)
+        if any(isinstance(n, (ast.Break, ast.Continue)) for n in own_level(st.body)):
+            return None
+        g = callee.gen_orig
+        from .source import _own_nodes
+        for n in _own_nodes(g):
+            if isinstance(n, ast.Return):
+                return None
+            if isinstance(n, (ast.Yield, ast.YieldFrom)):
+                pass
+        suffix = "__g%d" % self.uid()
+        names = set(callee.params) | set(callee.kwonly) | assigned_names(g.body)
+
+        class Ren(ast.NodeTransformer):
+            def visit_Name(self_, node):
+                if node.id in names:
+                    return ast.copy_location(ast.Name(id=node.id + suffix, ctx=node.ctx), node)
+                return node
+
+        outer = self
+
+        class Rep(ast.NodeTransformer):
+            ok = True
+
+            def visit_FunctionDef(self_, node):
+                return node
+            visit_Lambda = visit_ClassDef = visit_AsyncFunctionDef = visit_FunctionDef
+
+            def visit_Expr(self_, node):
+                v = node.value
+                if isinstance(v, ast.Yield):
+                    asg = ast.Assign(targets=[copy.deepcopy(st.target)], value=v.value if v.value is not None else ast.Constant(value=None))
+                    ast.fix_missing_locations(ast.copy_location(asg, node))
+                    return [asg] + copy.deepcopy(list(st.body))
+                if isinstance(v, ast.YieldFrom):
+                    loop = ast.For(target=copy.deepcopy(st.target), iter=v.value, body=copy.deepcopy(list(st.body)), orelse=[])
+                    return ast.fix_missing_locations(ast.copy_location(loop, node))
+                return node
+
+            def visit_Yield(self_, node):
+                Rep.ok = False
+                return node
+            visit_YieldFrom = visit_Yield
+        body = [Ren().visit(copy.deepcopy(x)) for x in g.body]
+        if body and isinstance(body[0], ast.Expr) and isinstance(body[0].value, ast.Constant) and isinstance(body[0].value.value, str):
+            body = body[1:]
+        rep = Rep()
+        out = []
+        for x in body:
+            y = rep.visit(x)
+            out.extend(y if isinstance(y, list) else [y])
+        if not Rep.ok:
+            return None
+        binds = []
+
+        def bind(name, value):
+            a = ast.Assign(targets=[ast.Name(id=name + suffix, ctx=ast.Store())], value=value)
+            binds.append(ast.fix_missing_locations(ast.copy_location(a, st)))
+        params = list(callee.params)
+        if skip:
+            if not isinstance(st.iter.func, ast.Attribute):
+                return None
+            bind(params[0], st.iter.func.value)
+            params = params[1:]
+        if len(st.iter.args) > len(params):
+            return None
+        given = set()
+        for pn, a in zip(params, st.iter.args):
+            bind(pn, a)
+            given.add(pn)
+        for k in st.iter.keywords:
+            if k.arg not in params and k.arg not in callee.kwonly or k.arg in given:
+                return None
+            bind(k.arg, k.value)
+            given.add(k.arg)
+        for pn in params + list(callee.kwonly):
+            if pn not in given:
+                d = callee.defaults.get(pn)
+                if d is None:
+                    return None
+                bind(pn, d)
+        self.locals |= {n + suffix for n in names}
+        self._fusing = tuple(getattr(self, "_fusing", ())) + (callee.qualname,)
+        stats = _INLINE_STATS.setdefault(id(self.p), {"ok": set(), "fail": set()})
+        stats["ok"].add(callee.qualname)
+        return binds + out
+
     def s_For(self, st, p, loops):
+        fused = self._fuse_generator_loop(st, p)
+        if fused is not None:
+            try:
+                return self.block(fused, [p], loops)
+            finally:
+                self._fusing = self._fusing[:-1]
         tab = self._const_table_elements(st.iter) if not st.orelse else None
         if tab is not None and isinstance(st.target, (ast.Tuple, ast.List)):
             # a loop over a small module-level table of tuples is unrolled (table-driven code == if-chain)
@@ -871,6 +1025,30 @@ class Evaluator:
                             done.append(q)
                     live = nxt
                 return live + done
+        if isinstance(st.iter, ast.Name) and st.iter.id in p.env and p.env[st.iter.id][0] in ("tuple", "list") and 0 < len(p.env[st.iter.id][1]) <= 8 and not any(x[0] == "star" for x in p.env[st.iter.id][1]) and st.iter.id not in mutated_names(st.body) and (st.orelse or any(isinstance(n, ast.Break) for n in ast.walk(st))):
+            # a SEARCH loop (break / for-else) over a local bound to a short display: unrolled like a literal (the else part runs when no iteration broke out)
+            live, done = [p], []
+            for el in p.env[st.iter.id][1]:
+                nxt = []
+                for q0 in live:
+                    self.assign(st.target, el, q0, st, None)
+                    for q in self.block(list(st.body), [q0], loops):
+                        if q.result is None:
+                            nxt.append(q)
+                        elif q.result[0] == "continue":
+                            q.result = None
+                            nxt.append(q)
+                        elif q.result[0] == "break":
+                            q.result = None
+                            done.append(q)
+                        else:
+                            done.append(q)
+                live = nxt
+                if len(live) + len(done) > MAX_PATHS:
+                    raise AnalysisError("path explosion unrolling a loop in %s" % self.fn.qualname)
+            if st.orelse:
+                live = self.block(list(st.orelse), live, loops)
+            return live + done
         return self._loop(st, p, loops, "for")
 
     s_AsyncFor = s_For
@@ -1012,6 +1190,9 @@ class Evaluator:
             cc = self._class_scalar(b, node.attr)
             if cc is not None:
                 return cc
+            nt = self._record_field(b, node.attr)
+            if nt is not None:
+                return nt
             return ("attr", b, self.p.rename_map.get(node.attr, node.attr) if b[0] in ("param", "global", "attr", "call") and node.attr in self.p.rename_map and self._is_method_name(node.attr) else node.attr)
         if isinstance(node, ast.Call):
             f = ev(node.func)
@@ -1239,6 +1420,30 @@ class Evaluator:
                     t = fuse_comp(("comp", "gen", uid, elt, ((b, args[1], conds),)))
                     self.comps[uid] = (node, t)
                     return t
+        rec = self._record_construct(f, args, kwargs)
+        if rec is not None:
+            return rec
+        if f[0] == "attr" and f[1][0] == "global" and f[2] in ("search", "match", "fullmatch", "sub", "subn", "findall", "finditer", "split") and f[1][1] in self.p.modules:
+            # P = re.compile(TEXT) at module level;  P.search(s)  ==  re.search(TEXT, s)
+            m_ = self.p.modules[f[1][1]]
+            vals = m_.assigns.get(f[1][2]) or []
+            if len(vals) == 1 and isinstance(vals[0], ast.Call) and len(vals[0].args) == 1 and not vals[0].keywords:
+                fr = self.p.resolve_global_expr(m_, vals[0].func)
+                if fr and fr[0] == "ext" and fr[1] == "re.compile":
+                    from .fold import Unfoldable
+                    try:
+                        text = _folder_of(self.p).eval(vals[0].args[0], m_)
+                    except Unfoldable:
+                        text = None
+                    re_name = [k for k, v in m_.imports.items() if v == ("module", "re")]
+                    if isinstance(text, str) and re_name and isinstance(vals[0].func, ast.Attribute):
+                        return self.call(("attr", ("global", m_.name, re_name[0]), f[2]), [("const", text)] + list(args), kwargs, p, node, maybe)
+        if f[0] == "attr" and f[2] == "get" and M_is_call(f[1]) and f[1][1][0] == "attr" and f[1][1][2] == "groupdict" and not f[1][2] and not f[1][3] and 1 <= len(args) <= 2 and not kwargs and nostar:
+            # m.groupdict().get(k, d)  ==  m.group(k) if k in m.groupdict() else d
+            m_t = f[1][1][1]
+            return ("ifexp", ("compare", ("in",), (args[0], f[1])), ("call", ("attr", m_t, "group"), (args[0],), ()), args[1] if len(args) == 2 else NONE)
+        if f == ("builtin", "list") and len(args) == 1 and not kwargs and (args[0][0] == "list" or (args[0][0] == "comp" and args[0][1] == "list")):
+            return args[0]  # a copy of a list that nobody else holds
         callee = self.resolve_package_callee(f, p)
         if callee is not None and nostar:
             args, kwargs = canonical_args(callee[0], callee[1], args, kwargs)
@@ -1260,8 +1465,74 @@ class Evaluator:
         if isinstance(fnode, ast.Attribute) and fnode.attr in MUTATORS and isinstance(fnode.value, ast.Name) and f[0] == "attr" and f[2] == fnode.attr:
             nm = fnode.value.id
             if nm in p.env:
-                p.env[nm] = ("mut", p.env[nm], fnode.attr, tuple(args))
+                cur = p.env[nm]
+                if cur[0] == "list" and fnode.attr == "append" and len(args) == 1 and not kwargs and args[0][0] != "star":
+                    p.env[nm] = ("list", cur[1] + (args[0],))  # [a].append(b) is [a, b]
+                elif cur[0] == "list" and fnode.attr == "extend" and len(args) == 1 and not kwargs and args[0][0] in ("list", "tuple") and not any(x[0] == "star" for x in args[0][1]):
+                    p.env[nm] = ("list", cur[1] + tuple(args[0][1]))
+                else:
+                    p.env[nm] = ("mut", cur, fnode.attr, tuple(args))
         return t
+
+    _NOT_RECORD_FIELDS = {"end", "start", "group", "groups", "span", "string", "pos", "endpos", "re", "count", "index", "real", "imag", "name", "value", "args", "keys", "values", "items", "get", "pattern", "flags", "inv", "inverse"}
+
+    def _record_field(self, b, attr):
+        """x.field for a record (namedtuple) value x == the tuple element: records are analysed as plain tuples."""
+        prog = self.p
+        if not getattr(prog, "namedtuples", None):
+            return None
+        idx = None
+        if M_is_call(b):
+            r = self.resolve_package_callee(b[1], None)
+            if r is not None:
+                fields = prog.nt_return_fields(r[0])
+                if fields and attr in fields:
+                    idx = fields.index(attr)
+        if idx is None and b[0] == "param" and not self.inline_stack:
+            # a parameter annotated with a record type
+            a = self.fn.node.args
+            for arg in a.posonlyargs + a.args + a.kwonlyargs:
+                if arg.arg == b[1] and arg.annotation is not None:
+                    r = prog.resolve_global_expr(self.module, arg.annotation) if isinstance(arg.annotation, (ast.Name, ast.Attribute)) else None
+                    key = (r[1].name, r[2]) if r and r[0] == "const" else ((r[1].module.name, r[1].name) if r and r[0] == "class" else None)
+                    fields = prog.namedtuples.get(key)
+                    if fields and attr in fields:
+                        idx = fields.index(attr)
+        if idx is None:
+            # by field name: only for a display, or an element taken out of a collection (loop variable, subscript)
+            if attr not in prog.nt_field_index:
+                return None
+            if b[0] not in ("tuple", "loopvar", "bound", "carried", "loopout", "sub"):
+                return None
+            if b[0] != "tuple" and attr in self._NOT_RECORD_FIELDS:
+                return None
+            idx = prog.nt_field_index[attr]
+        if b[0] == "tuple":
+            if idx < len(b[1]) and not any(x[0] == "star" for x in b[1]):
+                return b[1][idx]
+            return None
+        if b[0] == "loopvar":
+            return ("loopvar", b[1], b[2], tuple(b[3]) + (idx,))
+        return ("sub", b, ("const", idx))
+
+    def _record_construct(self, f, args, kwargs):
+        """RecordType(a, b=...) == the tuple (a, b)."""
+        prog = self.p
+        if f[0] != "global" or not getattr(prog, "namedtuples", None):
+            return None
+        fields = prog.namedtuples.get((f[1], f[2]))
+        if fields is None:
+            return None
+        if any(a[0] == "star" for a in args) or any(k is None for k, _ in kwargs) or len(args) > len(fields):
+            return None
+        vals = dict(zip(fields, args))
+        for k, v in kwargs:
+            if k not in fields or k in vals:
+                return None
+            vals[k] = v
+        if len(vals) != len(fields):
+            return None
+        return ("tuple", tuple(vals[x] for x in fields))
 
     def _elts(self, elts, p, maybe):
         return [self.expr(e, p, maybe) for e in elts]
@@ -1748,6 +2019,10 @@ class _Subst:
         return nl
 
 
+def M_is_call(t):
+    return isinstance(t, tuple) and len(t) == 4 and t[0] == "call"
+
+
 def replace_terms(t, mapping):
     """Structural replacement of sub-terms (keys of `mapping`) everywhere in t."""
     if not isinstance(t, tuple) or not t:
@@ -1991,6 +2266,8 @@ class Analysis:
         self.p = program
         self.folder = Folder(program)
         self._fp = {}
+        global _SENTINELS
+        _SENTINELS = frozenset(getattr(program, "sentinels", ()))
 
     def paths(self, fn):
         if fn.qualname not in self._fp:
